@@ -525,6 +525,10 @@ class Exec:
             for c in extra:
                 sv.add(c)
             r = sv.check()
+            if r == z3.unknown:
+                # one retry with a generous limit before the query is reported as undecided
+                sv.set('timeout', 600000)
+                r = sv.check()
             m = sv.model() if r == z3.sat else None
         else:
             self.solver.push()
